@@ -18,9 +18,6 @@ import warnings
 import weakref
 from collections.abc import Callable, Iterable, Iterator, Mapping
 from contextlib import suppress
-from email.message import EmailMessage
-from email.parser import HeaderParser
-from email.policy import HTTP
 from email.utils import parsedate
 from http.cookies import SimpleCookie
 from math import ceil
@@ -355,31 +352,6 @@ def parse_mimetype(mimetype: str) -> MimeType:
     )
 
 
-class EnsureOctetStream(EmailMessage):
-    def __init__(self) -> None:
-        super().__init__()
-        # https://www.rfc-editor.org/rfc/rfc9110#section-8.3-5
-        self.set_default_type("application/octet-stream")
-
-    def get_content_type(self) -> str:
-        """Re-implementation from Message
-
-        Returns application/octet-stream in place of plain/text when
-        value is wrong.
-
-        The way this class is used guarantees that content-type will
-        be present so simplify the checks wrt to the base implementation.
-        """
-        value = self.get("content-type", "").lower()
-
-        # Based on the implementation of _splitparam in the standard library
-        ctype, _, _ = value.partition(";")
-        ctype = ctype.strip()
-        if ctype.count("/") != 1:
-            return self.get_default_type()
-        return ctype
-
-
 @functools.lru_cache(maxsize=56)
 def parse_content_type(raw: str) -> tuple[str, MappingProxyType[str, str]]:
     """Parse Content-Type header.
@@ -388,11 +360,15 @@ def parse_content_type(raw: str) -> tuple[str, MappingProxyType[str, str]]:
     MappingProxyType of parameters. The default returned value
     is `application/octet-stream`
     """
-    msg = HeaderParser(EnsureOctetStream, policy=HTTP).parsestr(f"Content-Type: {raw}")
-    content_type = msg.get_content_type()
-    params = msg.get_params(())
-    content_dict = dict(params[1:])  # First element is content type again
-    return content_type, MappingProxyType(content_dict)
+    # One linear pass over the field value: the parser of the email package
+    # is quadratic in the number of ";" and raises on some values
+    params = parse_mimetype(raw).parameters
+    content_type = raw.partition(";")[0].strip().lower()
+    if content_type.count("/") != 1:
+        # https://www.rfc-editor.org/rfc/rfc9110#section-8.3-5
+        content_type = "application/octet-stream"
+    # of a repeated parameter the first one counts
+    return content_type, MappingProxyType({key: params[key] for key in params})
 
 
 def guess_filename(obj: Any, default: str | None = None) -> str | None:
